@@ -40,6 +40,17 @@ fn targets() -> Vec<(String, BlpTarget)> {
     v
 }
 
+/// encoder output with full mip chains for the C05 corpus
+pub fn sample_blps(rng: &mut Rng) -> Vec<(String, Vec<u8>)> {
+    let mut v = vec![];
+    for (name, target) in targets() {
+        if !(name.starts_with("blp1-raw1-a8") || name.starts_with("blp2-raw1-a1") || name == "blp2-raw3" || name == "blp1-jpeg-true" || name == "blp2-jpeg-false" || name == "blp2-dxt1-false" || name == "blp2-dxt5-true") { continue; }
+        let img = gen_image(rng, 16, 8, 3);
+        if let Ok(b) = image_to_blp(DynamicImage::ImageRgba8(img), true, target, FilterType::Nearest) { if let Ok(bytes) = encode_blp(&b) { v.push((name, bytes)); } }
+    }
+    v
+}
+
 fn level_count(w: u32, h: u32, mips: bool) -> usize { if !mips { 1 } else { (31 - w.max(h).leading_zeros()) as usize + 1 } }
 
 pub fn run(ctx: &mut Ctx) {
